@@ -17,9 +17,14 @@ PROP = {
     "min_events": 20000,
     "rule": ("server layer: per case a PRNG allow/deny table over 1..600 destination strings (host and port both matter; "
              "deny share 5..95 %) is applied by the fake outbound in UDP() and CheckUDP(); 1..2 sessions send 1..2000 "
-             "datagrams following one of 7 patterns (uniform, deny/allow alternation, fill-and-evict with re-probes of a "
+             "datagrams following one of 8 patterns (uniform, deny/allow alternation, fill-and-evict with re-probes of a "
              "denied and an allowed destination, denied first, zipf, mostly-denied overflow, >256 allowed first then the "
-             "denied ones), hook rewrite on for 40 % of the cases (the rewritten destination is itself allowed or denied). "
+             "denied ones, hostile fragments). Hostile client: fragment sets of ONE datagram whose fragments name "
+             "DIFFERENT destinations -- for 2 and 3 fragments every allowed/denied assignment in every arrival order, as "
+             "first datagram of a session and on an established socket -- whole datagrams with FragCount 0/1 but FragID "
+             "1/2/255, sets with FragID >= FragCount; the systematic enumeration is its own pattern and random hostile "
+             "sets are sprinkled (1 in 25) into all other patterns; such a datagram may only go to a destination one of "
+             "its fragments named AND the policy allows. Hook rewrite on for 40 % of the cases (the rewritten destination is itself allowed or denied). "
              "Every WriteTo of every fake socket is checked. A case is non-trivial when a session used more than 256 "
              "distinct destinations on one socket (decision cache overflowed); distinct = (pattern, table size, deny "
              "share, sequence). ACL layer: random rule texts (1..14 rules over exact / wildcard / suffix / CIDR / IP / all "
